@@ -1251,7 +1251,9 @@ Section ExecMergeP.
     assert (Efd : EM.f_dest dest fchain = EM.f_dest dest fchain').
     { unfold EM.f_dest. now rewrite (map_reorder_lookup _ _ dest Hf). }
     rewrite <- Efd. split; [|split; [|split; [|split]]].
-    - now apply merge_commits_reorder.
+    - apply merge_commits_reorder; [|exact HR]. destruct Hf as [NDf Pf]. split.
+      + unfold EM.dest_fchain. rewrite map_map. exact NDf.
+      + unfold EM.dest_fchain. rewrite <- Efd. now apply Permutation_map.
     - now apply merge_msgs_reorder.
     - exact Ht.
     - intros x. now rewrite (merge_costly_reorder _ _ _ HR).
@@ -1306,7 +1308,7 @@ Proof. intros (A & B & C). apply sortN_perm. now apply NoDup_Permutation. Qed.
 Lemma get_commit_reports_equiv m m' : emerged_equiv m m' -> get_commit_reports m = get_commit_reports m'.
 Proof.
   intros ([K L] & _). unfold get_commit_reports. cbn zeta. rewrite (same_keys_sorted _ _ K).
-  f_equal. f_equal. apply flat_map_ext. intros c. apply L.
+  f_equal. f_equal. f_equal. apply flat_map_ext. intros c. apply L.
 Qed.
 
 Lemma observed_seqs_equiv m m' c lo hi : emerged_equiv m m' -> observed_seqs m c lo hi = observed_seqs m' c lo hi.
@@ -1693,7 +1695,8 @@ Definition eout_shape (r : res eout) : option (N * list (N * N * list N * nat) *
 
 Example exec_example :
   (exec_reorder ex_x1 (exec_in_rev ex_x1) /\ ex_x1 <> exec_in_rev ex_x1 /\ exec_ids_faithful ex_nid ex_x1 /\
-   eout_shape (ex_xcanon ex_x1) = Some (1, [(1, 10, [10], 0%nat); (1, 10, [], 0%nat); (2, 1, [], 0%nat)], 0%nat) /\
+   (* the two agreed versions of report (1, 10) - executed list [10] and [] - conflict and are dropped (repair of F76) *)
+   eout_shape (ex_xcanon ex_x1) = Some (1, [(2, 1, [], 0%nat)], 0%nat) /\
    ex_xcanon_rt exec_rt_rev (exec_in_rev ex_x1) = ex_xcanon ex_x1) /\
   (exec_reorder ex_x2 (exec_in_rev ex_x2) /\ exec_ids_faithful ex_nid ex_x2 /\
    eout_shape (ex_xcanon ex_x2) = Some (2, [(1, 10, [10], 1%nat); (1, 10, [], 1%nat); (2, 1, [], 1%nat)], 0%nat) /\
@@ -1793,20 +1796,25 @@ Proof.
 Qed.
 
 (* (c) unique sort keys are NOT guaranteed by consensus (two conflicting commit data for one (source, start), each
-   with f+1 votes, are both valid) and NOT needed: ties are kept in GetValid order by the stable sorts, and GetValid
-   iterates in ascending id order. With the iteration order of the cache instead (GetValid before the repair of F17,
-   or any caller handing newSortedOutcome a permuted list: F29) the two range orders give two outcomes. *)
+   with f+1 votes, are both valid).  Since the repair of F76 getCommitReportsOutcome drops such conflicting reports, so
+   the pending list of the GetCommitReports outcome has unique keys again; before it the ties were kept in GetValid
+   order by the stable sorts, and GetValid iterates in ascending id order.  With the iteration order of the cache
+   instead (GetValid before the repair of F17, or any caller handing newSortedOutcome a permuted list: F29) the two
+   range orders gave two outcomes. *)
 Theorem exec_consensus_dupkey_example :
   exec_ids_faithful ex_nid ex_x1 /\
-  exists o, ex_xcanon ex_x1 = Ok o /\ ~ NoDup (map (fun cd => (ER.c_src cd, ER.c_start cd)) (eo_pending o)).
+  exists m, exec_merge_rt ex_nid exec_rt_id 1 9 (x_fchain ex_xcfg) ex_xaos = Ok m /\
+            ~ NoDup (map (fun cd => (ER.c_src cd, ER.c_start cd)) (get_commit_reports_unfixed m)) /\
+            NoDup (map (fun cd => (ER.c_src cd, ER.c_start cd)) (get_commit_reports m)).
 Proof.
-  split; [apply ex_faithful|]. eexists. split; [vm_compute; reflexivity|].
-  cbn. intros H. inversion H as [|? ? Hn _]. apply Hn. now left.
+  split; [apply ex_faithful|]. eexists. split; [vm_compute; reflexivity|]. split.
+  - vm_compute. intros H. inversion H as [|? ? _ H']. inversion H' as [|? ? Hn _]. apply Hn. now left.
+  - vm_compute. repeat constructor. intros [].
 Qed.
 
 Theorem exec_dupkey_unfixed_refuted :
   let c := cache_of ec_id (citems 1 ex_xaos) in
-  let out := fun l => new_outcome 1 (get_commit_reports (mkEmerged [(1, l)] [] [] [] [])) [] in
+  let out := fun l => new_outcome 1 (get_commit_reports_unfixed (mkEmerged [(1, l)] [] [] [] [])) [] in
   Permutation c (rev c) /\ NoDup (map fst c) /\
   out (get_valid_unfixed 2 c) <> out (get_valid_unfixed 2 (rev c)) /\
   out (get_valid 2 c) = out (get_valid 2 (rev c)).
